@@ -146,7 +146,8 @@ class Run:
         cmd += [module + ".tla"]
         t = time.time()
         env = dict(os.environ)
-        env["JAVA_TOOL_OPTIONS"] = (env.get("JAVA_TOOL_OPTIONS", "") + " -Xss256m").strip()
+        # (java.io.tmpdir: TLC leaves an empty tlc-<n> directory per run in the temporary directory; keep it in the work directory)
+        env["JAVA_TOOL_OPTIONS"] = (env.get("JAVA_TOOL_OPTIONS", "") + " -Xss256m -Djava.io.tmpdir=" + self.work).strip()
         outpath = os.path.join(self.work, "tlc%d.out" % len(self.tlc_runs))
         with open(outpath, "w") as outf:
             p = subprocess.run(cmd, cwd=self.work, stdout=outf, stderr=subprocess.STDOUT, env=env)
